@@ -283,12 +283,12 @@ pub fn def() -> CheckDef {
     CheckDef {
         id: "C17",
         rule: "two pools sharing a mint (mint-key order random, so all four direction combinations occur; SPL Token and extension-free Token-2022 mints), each \
-               with its own generated history; then a two-hop (v1/v2, both modes, optional price limits) on clone A and the two single swaps with the matching \
+               with its own generated history (static or adaptive-fee; a third of the adaptive pools are permissioned with a trade-enable time past / now / ahead); then a two-hop (v1/v2, both modes, optional price limits) on clone A and the two single swaps with the matching \
                intermediate amount on clone B (exact-out: leg two's input learned by a dry run): the COMPLETE account stores must be byte-equal (pools, tick \
                arrays, vaults, every token account); trader pays only leg one's input, receives only leg two's output, intermediate nets to zero; failure \
                equivalences: either single fails / intermediate amounts differ / same pool twice / no shared mint / threshold missed by one => two-hop fails.  \
                Non-trivial = compared-equal case, or a mismatch/malformed case that was rejected; distinct = hash of the case.",
-        assumptions: vec!["nsvm runtime as in DESIGN.md §5", "static-fee pools here; adaptive-fee two-hops are covered in the `adaptive` sub-check once oracles exist"],
+        assumptions: vec!["nsvm runtime as in DESIGN.md §5", "one leg may be an adaptive-fee pool (oracle accounts compared byte for byte as well)"],
         subs: vec![sub("two_hop", 30_000, 600_000, case_strategy, |c: &TwoHopCase, l: &mut Local| check_case(c, l, false))],
     }
 }
